@@ -2,6 +2,8 @@ import JxlModel.Proofs.Modular
 import JxlModel.Proofs.Flatten
 import JxlModel.Proofs.PredictorState
 import JxlModel.Proofs.TableOld
+import JxlModel.Proofs.TransformChain
+import JxlModel.Proofs.GroupPartition
 /-!
 # C03 — lossless Modular images decode to exactly the encoded samples
 
@@ -40,8 +42,57 @@ Layers (DESIGN.md §4 C03):
   The weighted predictor itself has no independent Spec (property 15 and predictor 6 take its
   output as a parameter on both sides); what is proved is that it is fed the Spec neighbours.
 
-Not proved here (tied by the differential run only, see evidence):
-palette; the group partition. The statements are kept below as comments where not yet proved.
+* the whole transform chain (Impl decoder inverts the reference encoder): for **every** channel
+  list, **every** list of resolved transforms (RCT: 7 types × 6 permutations; palette with any
+  `nbColours`, `nbDeltas`, predictor; squeeze: any parameter list, horizontal / vertical, in place
+  or not, incl. the defaults `transformInfo` fills in) and every palette table the reference
+  encoder accepts (`forwardAll sb ts pals chans = some coded`), the decoder's
+  `inverseAll sb bitDepth wp ts coded` — wrapping arithmetic at the sample width, the channel-list
+  rewriting, the palette expansion with its delta pass — gives back `chans`
+  (`C03_transform_chain_inv_fwd`), under the executable hypothesis `chainOk`
+  (`Model/Modular/ChainOk.lean`): per transform, on the channel list it is applied to, the touched
+  channels exist and their buffers have `w * h` samples, and the values the inverse wraps are
+  representable (`rctTripleOk`: the three samples, and `d + f` for RCT types 4/5 — the decoder
+  halves that sum after wrapping it; `sqLineOk`: both samples of a pair and their difference;
+  palette: nothing). One level down: one RCT on three channels (`C03_rct_chan_inv_fwd`), one
+  squeeze of a channel / a step on the list (`C03_squeeze_chan_inv_fwd`,
+  `C03_squeeze_step_inv_fwd`), one palette (`C03_palette_chosen_index_value`: the entry the
+  encoder chose is explicit, not a delta entry, and its value is the pixel's colour;
+  `C03_palette_inv_fwd`: no value hypothesis at all), one transform (`C03_transform_inv_fwd`),
+  RCT-only chains (`C03_rct_chain_inv_fwd`).
+  Channel bookkeeping: the forward transforms' output has exactly the dimensions
+  `transformInfoAll` computes for the decoder (default squeeze parameters included) and
+  well-formed buffers (`C03_forward_matches_transform_info`; `encodeFrame` checks the dimensions
+  at run time, this shows the check cannot fail), and for channel lists that match
+  `transformInfoAll`'s input the structural half of `chainOk` follows, leaving only the value
+  conditions `chainRangeOk` (`C03_pipeline_roundtrip`). `C03_headroom_suffices`: samples with one
+  bit of headroom satisfy the value conditions of RCT and squeeze.
+  The encoder uses explicit palette entries only (implicit entries `index ≥ nbColours` and delta
+  entries `index < nbDeltas` are exercised on the decoder side by coded-domain plans of the
+  differential run, not by `forwardOne`).
+  **Finding (reference encoder, repaired in `forwardOne`):** the palette search ignored
+  `nbDeltas`; with `nbDeltas > 0` it could pick a delta entry, to which the decoder (as the Rust
+  `Palette::inverse_inner`) adds a prediction — accepted, but not decoded to the original
+  (`C03_palette_forward_needs_nondelta`, replayed on the real decoder). The check's oracle compares
+  with `inverseAll` of the coded channels, so the differential run could not see it.
+  Both sides use the same sample width `sb`; `encodeFrame` runs the forward transforms at 32 bits
+  and the decoder possibly at 16: that step is C12 (`C12_inverseAll_narrow_eq_wide`).
+
+* the group partition: `encodeFrame` cuts every non-global channel into one rectangle per group
+  (`groupPieceChans`: group dimension divided by the channel's shifts, clipped at the right and
+  bottom edge, empty rectangles dropped, so a group's sub-image lists only its non-empty channels)
+  and the decoded pieces are pasted back (`pasteGroups`: pixel `(x, y)` of channel `ci` is read
+  from group `(y / gh) * gcols + x / gw`, at the channel's position among that group's non-empty
+  channels). `C03_group_partition_reassembles`: pasting the pieces gives back every channel, for
+  every list of channels, sizes (also smaller than one group cell, 0 included), group dimension,
+  shifts and number of group columns satisfying `groupLayoutOk` (buffers well-formed with the
+  info's dimensions, group cells non-empty, the group columns cover the channel's width);
+  `C03_group_columns_cover`: channels of the natural shape `⌈cw / 2^s⌉` with `2^s ∣ groupDim` and
+  `⌈cw / groupDim⌉` columns satisfy the last two.
+
+Not proved here (tied by the differential run only, see evidence): the composition of these
+layers inside `encodeFrame` into one statement `modelDecoded = some chans` (token round trip per
+sub-image → group pieces → pasted channels → transform chain); each layer is proved above.
 -/
 namespace Jxl.Modular
 
@@ -349,4 +400,260 @@ example : (squeezeLineG (tendency 32) [10, 3, 7, 7, 250, 0, 4]).1 = [7, 7, 125, 
 example : unsqueezeLine 32 (squeezeLine 32 [10, 3, 7, 7, 250, 0, 4]).1 (squeezeLine 32 [10, 3, 7, 7, 250, 0, 4]).2
     = [10, 3, 7, 7, 250, 0, 4] := by decide +kernel
 
+/-! ## The whole transform chain: the decoder's inverse undoes the reference encoder's forward -/
+
+/-- One RCT on three whole channels: all 42 `rct_type`s, wrapping arithmetic at the sample width.
+Hypothesis `rctChanOk`: equally many samples, every (permuted) triple `rctTripleOk`. -/
+theorem C03_rct_chan_inv_fwd (sb : SBits) (t : Nat) (x y z : Chan)
+    (h : rctChanOk sb t x y z = true) :
+    rctInverse sb t (rctForward t x y z).1 (rctForward t x y z).2.1 (rctForward t x y z).2.2
+      = (x, y, z) :=
+  rctInverse_rctForward sb t x y z h
+
+/-- One squeeze of a whole channel, horizontal or vertical, any size (odd, 1, 0 included):
+averages and residuals are merged back to the channel. Hypothesis `sqChanOk`: buffer of `w * h`
+samples, every row / column `sqLineOk`. -/
+theorem C03_squeeze_chan_inv_fwd (sb : SBits) (hz : Bool) (c : Chan) (h : sqChanOk sb hz c = true) :
+    unsqueezeChan sb hz (squeezeChan sb hz c).1 (squeezeChan sb hz c).2 = c :=
+  unsqueezeChan_squeezeChan sb hz c h
+
+/-- One squeeze step on the channel list (`squeezeFwdStep` is the body of `forwardOne`'s fold,
+`squeezeInvStep` that of `inverseOne`'s): the residual channels are found again — after the
+averages (in place) or at the end of the list — and every pair is merged into its channel. -/
+theorem C03_squeeze_step_inv_fwd (sb : SBits) (chans : List Chan) (sp : SqueezeParam)
+    (h : sqStepOk sb chans sp = true) :
+    squeezeInvStep sb (squeezeFwdStep sb chans sp) sp = chans :=
+  squeezeInvStep_squeezeFwdStep sb chans sp h
+
+/-- Palette, one pixel: the index `k` the encoder's search returns is an explicit entry that is
+not a delta entry (`nbDeltas ≤ k < nbColours`), and the decoder's `paletteValue` of it is the
+pixel's sample in every one of the `n` channels — at every sample width and bit depth. -/
+theorem C03_palette_chosen_index_value (sb : SBits) (pal : Chan) (srcs : List Chan)
+    (n nbc nbd bitDepth x y k : Nat) (h : palFind pal srcs n nbc nbd x y = some k) :
+    nbd ≤ k ∧ k < nbc ∧
+      ∀ c, c < n → paletteValue sb pal nbc bitDepth (k : Int) c = (srcs.getD c default).get x y := by
+  obtain ⟨h1, h2, h3⟩ := palFind_some h
+  exact ⟨h1, h2, fun c hc => by rw [paletteValue_explicit sb pal nbc bitDepth k c h2, h3 c hc]⟩
+
+/-- One palette transform in the pipeline: if `transformInfo` accepts it on a channel list whose
+dimensions the channels have, and the buffers are well-formed, then whatever the encoder produces
+is decoded to the original channels. No hypothesis on sample values. -/
+theorem C03_palette_inv_fwd (sb : SBits) (bitDepth : Nat) (wp : Wp) (cl cl' : ChanList)
+    (b n nbc nbd dp : Nat) (t' : Transform) (chans coded : List Chan) (pal : Option Chan)
+    (hti : transformInfo cl (.palette b n nbc nbd dp) = .ok (cl', t'))
+    (hd : dimsMatch chans cl.info = true) (hwf : allWf chans = true)
+    (h : forwardOne sb chans pal t' = some coded) :
+    inverseOne sb bitDepth wp coded t' = chans := by
+  obtain ⟨rfl, _⟩ := transformInfo_palette_ok hti
+  exact inverseOne_forwardOne sb bitDepth wp chans coded pal _ (palette_stepOk_of_info sb hti hd hwf) h
+
+/-- One transform of any kind. -/
+theorem C03_transform_inv_fwd (sb : SBits) (bitDepth : Nat) (wp : Wp) (chans coded : List Chan)
+    (pal : Option Chan) (t : Transform) (hok : stepOk sb chans t = true)
+    (h : forwardOne sb chans pal t = some coded) :
+    inverseOne sb bitDepth wp coded t = chans :=
+  inverseOne_forwardOne sb bitDepth wp chans coded pal t hok h
+
+/-- **The whole chain.** For every sample width, bit depth, weighted-predictor header, every list
+of resolved transforms, palette tables and channels: if the reference encoder accepts
+(`forwardAll … = some coded`) and `chainOk` holds, the decoder's inverse chain returns exactly the
+original channels. -/
+theorem C03_transform_chain_inv_fwd (sb : SBits) (bitDepth : Nat) (wp : Wp) (ts : List Transform)
+    (pals chans coded : List Chan) (hok : chainOk sb ts pals chans = true)
+    (h : forwardAll sb ts pals chans = some coded) :
+    inverseAll sb bitDepth wp ts coded = chans :=
+  inverseAll_forwardAll sb bitDepth wp ts pals chans coded hok h
+
+/-- Chains of RCTs only (any number, overlapping channel ranges allowed): the instance of
+`C03_transform_chain_inv_fwd` for `ts = [rct b₁ t₁, rct b₂ t₂, …]`; no palette table is consumed. -/
+theorem C03_rct_chain_inv_fwd (sb : SBits) (bitDepth : Nat) (wp : Wp) (bts : List (Nat × Nat))
+    (pals chans coded : List Chan)
+    (hok : chainOk sb (bts.map fun p => Transform.rct p.1 p.2) pals chans = true)
+    (h : forwardAll sb (bts.map fun p => Transform.rct p.1 p.2) pals chans = some coded) :
+    inverseAll sb bitDepth wp (bts.map fun p => Transform.rct p.1 p.2) coded = chans :=
+  inverseAll_forwardAll sb bitDepth wp _ pals chans coded hok h
+
+/-- Channel bookkeeping. If `transformInfoAll` accepts the transform list on a channel list whose
+dimensions the channels have (it returns the list `cl'` the decoder decodes channels for, and the
+resolved transforms `ts'` — default squeeze parameters filled in), the buffers are well-formed and
+every palette table is a well-formed `nbColours × numC` grid, then the channels the forward
+transforms produce have exactly the dimensions of `cl'` (as many, same order: the palette meta
+channel in front, squeeze residuals after their averages or at the end) and well-formed buffers. -/
+theorem C03_forward_matches_transform_info (sb : SBits) (ts : List Transform) (cl cl' : ChanList)
+    (ts' : List Transform) (pals chans coded : List Chan)
+    (hti : transformInfoAll cl ts = .ok (cl', ts'))
+    (hd : dimsMatch chans cl.info = true) (hwf : allWf chans = true)
+    (hpals : palTablesOk ts' pals = true)
+    (hf : forwardAll sb ts' pals chans = some coded) :
+    dimsMatch coded cl'.info = true ∧ allWf coded = true :=
+  forwardAll_bookkeeping sb ts cl cl' ts' pals chans coded hti hd hwf hpals hf
+
+/-- **The chain in the pipeline.** As `encodeFrame` and the decoder use it: `transformInfoAll`
+accepts `ts` on the channel list `cl` and resolves it to `ts'`; the original channels have the
+dimensions of `cl` and well-formed buffers; the palette tables are well-formed; the reference
+encoder accepts. Then under the value conditions `chainRangeOk` alone the coded channels are what
+the decoder expects (`dimsMatch coded cl'.info`, well-formed) and its inverse chain returns the
+original channels. -/
+theorem C03_pipeline_roundtrip (sb : SBits) (bitDepth : Nat) (wp : Wp) (ts : List Transform)
+    (cl cl' : ChanList) (ts' : List Transform) (pals chans coded : List Chan)
+    (hti : transformInfoAll cl ts = .ok (cl', ts'))
+    (hd : dimsMatch chans cl.info = true) (hwf : allWf chans = true)
+    (hpals : palTablesOk ts' pals = true)
+    (hr : chainRangeOk sb ts' pals chans = true)
+    (hf : forwardAll sb ts' pals chans = some coded) :
+    dimsMatch coded cl'.info = true ∧ allWf coded = true ∧
+      inverseAll sb bitDepth wp ts' coded = chans :=
+  have hb := forwardAll_bookkeeping sb ts cl cl' ts' pals chans coded hti hd hwf hpals hf
+  ⟨hb.1, hb.2, inverseAll_forwardAll sb bitDepth wp ts' pals chans coded
+    (chainOk_of_range sb ts cl cl' ts' pals chans hti hd hwf hpals hr) hf⟩
+
+/-- One bit of headroom is enough for the value conditions: three samples in
+`[-2^(sb-2), 2^(sb-2))` are `rctTripleOk` for every RCT type, and a line of such samples is
+`sqLineOk`. (8-bit images in `i16` buffers, 16-bit and up to 30-bit images in `i32` buffers have
+it at the first transform; later transforms see the previous ones' output.) -/
+theorem C03_headroom_suffices (sb : SBits) :
+    (∀ (ty : Nat) (t : Int × Int × Int), inHeadroom sb t.1 = true → inHeadroom sb t.2.1 = true →
+      inHeadroom sb t.2.2 = true → rctTripleOk sb ty t = true) ∧
+    (∀ line : List Int, line.all (inHeadroom sb) = true → sqLineOk sb line = true) :=
+  ⟨fun ty t h1 h2 h3 => rctTripleOk_of_headroom sb ty t h1 h2 h3,
+   fun line h => sqLineOk_of_headroom sb line h⟩
+
+/-- **Finding (reference encoder), about the UNREPAIRED forward palette** (`forwardPaletteOld` in
+`Proofs/TransformChain.lean`, not the current `forwardOne`). The image `[5, 7]` with the table
+`[7, 5]`, `nbDeltas = 1`, delta predictor 1 (West): the old search, which ignored `nbDeltas`,
+accepted and coded the indices `[1, 0]`; index 0 is a delta entry, so the decoder (the model, and
+the real `Palette::inverse_inner`: replayed, it returns `5 12`) adds the prediction `W = 5` to the
+second pixel: `[5, 12]`. The repaired `forwardOne` searches the non-delta entries only and
+rejects this plan (pixel 7 has no non-delta entry). -/
+theorem C03_palette_forward_needs_nondelta :
+    (forwardPaletteOld [{ w := 2, h := 1, data := #[5, 7] }] (some { w := 2, h := 1, data := #[7, 5] }) 0 1 2).map
+        (fun cs => cs.map (·.data.toList)) = some [[7, 5], [1, 0]] ∧
+      (inverseOne 32 8 {} [{ w := 2, h := 1, data := #[7, 5] }, { w := 2, h := 1, data := #[1, 0] }]
+        (.palette 0 1 2 1 1)).map (·.data.toList) = [[5, 12]] ∧
+      (forwardOne 32 [{ w := 2, h := 1, data := #[5, 7] }] (some { w := 2, h := 1, data := #[7, 5] })
+        (.palette 0 1 2 1 1)).isNone = true := by
+  decide +kernel
+
+/-! Non-vacuity of the chain theorems: a 3-channel 5x4 image through
+`[palette (1 channel, 6 entries of which 2 are delta entries), rct 10 on the index channel and the
+two others, squeeze (horizontal in place on three channels, then vertical not in place on two)]`:
+`chainOk` holds, the encoder accepts, and decoding gives the image back (by evaluation, not through
+the theorem). -/
+def exRgb3 : List Chan :=
+  [{ w := 5, h := 4, data := #[0, 3, 2, 1, 0, 2, 0, 3, 2, 2, 1, 0, 3, 3, 1, 0, 2, 1, 3, 0] },
+   { w := 5, h := 4, data := #[0, 10, 20, 0, 10, 20, 255, 20, 0, 0, 10, 0, 7, 200, 100, 0, 0, 99, 98, 97] },
+   { w := 5, h := 4, data := #[0, 0, 0, 0, 0, 100, 100, 0, 0, 100, 0, 250, 251, 252, 3, 2, 1, 0, 128, 127] }]
+/-- palette table for channel 0: 6 entries; the first two are delta entries and are never chosen -/
+def exPal6 : Chan := { w := 6, h := 1, data := #[3, 0, 0, 1, 2, 3] }
+def exChain3 : List Transform :=
+  [.palette 0 1 6 2 5, .rct 1 10,
+   .squeeze [{ horizontal := true, inPlace := true, beginC := 1, numC := 3 },
+             { horizontal := false, inPlace := false, beginC := 2, numC := 2 }]]
+def chanObs (cs : List Chan) : List (Nat × Nat × List Int) := cs.map fun c => (c.w, c.h, c.data.toList)
+
+example : chainOk 32 exChain3 [exPal6] exRgb3 = true := by decide +kernel
+example : chainOk 16 exChain3 [exPal6] exRgb3 = true := by decide +kernel
+example : ((forwardAll 32 exChain3 [exPal6] exRgb3).map fun cs => cs.map (·.data.size))
+    = some [6, 12, 6, 6, 8, 8, 8, 6, 6] := by decide +kernel
+example : ((forwardAll 32 exChain3 [exPal6] exRgb3).map fun coded =>
+    chanObs (inverseAll 32 8 {} exChain3 coded)) = some (chanObs exRgb3) := by decide +kernel
+/-- the index channel uses the non-delta entries 2..5 only -/
+example : ((forwardOne 32 exRgb3 (some exPal6) (.palette 0 1 6 2 5)).map fun cs =>
+    (cs.getD 1 default).data.toList)
+    = some [2, 5, 4, 3, 2, 4, 2, 5, 4, 4, 3, 2, 5, 5, 3, 2, 4, 3, 5, 2] := by decide +kernel
+example : palFind exPal6 (exRgb3.take 1) 1 6 2 1 0 = some 5 := by decide +kernel
+example : rctChanOk 32 10 (exRgb3.getD 0 default) (exRgb3.getD 1 default) (exRgb3.getD 2 default) = true := by
+  decide +kernel
+example : sqChanOk 32 true (exRgb3.getD 1 default) = true ∧ sqChanOk 32 false (exRgb3.getD 2 default) = true := by
+  decide +kernel
+example : sqStepOk 32 exRgb3 { horizontal := false, inPlace := false, beginC := 1, numC := 2 } = true := by
+  decide +kernel
+/-- an RCT-only chain (two RCTs on the same three channels) -/
+example : chainOk 32 ([(0, 41), (0, 6)].map fun p => Transform.rct p.1 p.2) [] exRgb3 = true ∧
+    (forwardAll 32 ([(0, 41), (0, 6)].map fun p => Transform.rct p.1 p.2) [] exRgb3).isSome = true := by
+  decide +kernel
+
+/-- all hypotheses of `C03_pipeline_roundtrip` (and of `C03_forward_matches_transform_info`,
+`C03_palette_inv_fwd`) for a plan, as one Boolean -/
+def pipelineHyps (sb : SBits) (cl : ChanList) (ts : List Transform) (pals chans : List Chan) : Bool :=
+  match transformInfoAll cl ts with
+  | .ok (_, ts') =>
+    dimsMatch chans cl.info && allWf chans && palTablesOk ts' pals && chainRangeOk sb ts' pals chans &&
+      (forwardAll sb ts' pals chans).isSome
+  | .error _ => false
+
+def exInfo3 : ChanList :=
+  { info := List.replicate 3 { w := 5, h := 4, hshift := 0, vshift := 0 }, nbMeta := 0 }
+example : pipelineHyps 32 exInfo3 exChain3 [exPal6] exRgb3 = true := by decide +kernel
+/-- default squeeze parameters: a 12x10 channel; `transformInfo` resolves `squeeze []` to
+`[horizontal, vertical]` (both in place) and the round trip holds -/
+def exWide : List Chan :=
+  [Chan.ofFn 12 10 fun x y => ((x * 37 + y * 91 + x * y * 5) % 256 : Nat)]
+def exInfoWide : ChanList := { info := [{ w := 12, h := 10, hshift := 0, vshift := 0 }], nbMeta := 0 }
+example : pipelineHyps 16 exInfoWide [.squeeze []] [] exWide = true := by decide +kernel
+def sqParamsObs : Transform → List (Bool × Bool × Nat × Nat)
+  | .squeeze ps => ps.map fun sp => (sp.horizontal, sp.inPlace, sp.beginC, sp.numC)
+  | _ => []
+def exWideObs : Option (List (List (Bool × Bool × Nat × Nat)) × List (Nat × Nat) × List (Nat × Nat) × Bool) :=
+  match transformInfoAll exInfoWide [.squeeze []] with
+  | .ok (cl', ts') =>
+    (forwardAll 16 ts' [] exWide).map fun coded =>
+      (ts'.map sqParamsObs, cl'.info.map ChanInfo.dims, coded.map Chan.dims,
+        chanObs (inverseAll 16 8 {} ts' coded) == chanObs exWide)
+  | .error _ => none
+example : exWideObs.map (·.1) = some [[(true, true, 0, 1), (false, true, 0, 1)]] := by decide +kernel
+example : exWideObs.map (·.2.1) = some [(6, 5), (6, 5), (6, 10)] := by decide +kernel
+example : exWideObs.map (·.2.2.1) = some [(6, 5), (6, 5), (6, 10)] := by decide +kernel
+example : exWideObs.map (·.2.2.2) = some true := by decide +kernel
+/-- headroom: 8-bit samples in `i16` buffers -/
+example : [0, 255, 128, 7].all (inHeadroom 16) = true ∧ inHeadroom 32 (2 ^ 30 - 1) = true ∧
+    inHeadroom 32 (2 ^ 30) = false := by decide +kernel
+/-- the value conditions are needed: RCT type 4 on `d = f = 2·10⁹` (`d + f` is not an `i32`) is
+accepted by the encoder and not inverted; the triple is not `rctTripleOk` -/
+example : rctTripleOk 32 4 (2000000000, -2000000000, 2000000000) = false ∧
+    rctInvT (wrap 32) 4 (rctFwdT 4 (2000000000, -2000000000, 2000000000))
+      = (2000000000, 147483648, 2000000000) := by decide +kernel
+
 end Jxl.Modular
+
+namespace Jxl.Enc
+open Jxl.Modular
+
+/-- **Group partition.** For every group dimension, number of group columns and list of
+non-global channels with their infos (any sizes and shifts) satisfying `groupLayoutOk`: cutting
+the channels into the per-group pieces (`groupPieceChans`, what `encodeFrame` codes as the groups'
+sub-images) and pasting the pieces back (`pasteGroups`, what it does with the decoded sub-images)
+returns exactly the channels. -/
+theorem C03_group_partition_reassembles (groupDim gcols : Nat) (restCh : List (ChanInfo × Chan))
+    (hok : groupLayoutOk groupDim gcols restCh = true) :
+    pasteGroups groupDim gcols (restCh.map (·.1))
+      (fun g => some ((groupPieceChans groupDim gcols restCh g).map (·.2))) = restCh.map (·.2) :=
+  pasteGroups_groupPieces groupDim gcols restCh hok
+
+/-- The geometric half of `groupLayoutOk` for channels of the natural shape: width
+`⌈cw / 2^s⌉` for a frame of width `cw` and shift `s` with `2^s` dividing the group dimension
+(`128 · 2^group_shift`, `s ≤ 7 + group_shift`), and `⌈cw / groupDim⌉` group columns. -/
+theorem C03_group_columns_cover (cw groupDim s : Nat) (hdvd : 2 ^ s ∣ groupDim) (hg : 0 < groupDim) :
+    0 < groupDim / 2 ^ s ∧ ceilDiv cw (2 ^ s) ≤ ceilDiv cw groupDim * (groupDim / 2 ^ s) :=
+  group_columns_cover cw groupDim s hdvd hg
+
+/-! Non-vacuity: group dimension 2, three group columns (a 5-wide frame), channels `A` 1x1 (empty
+in every group but the first), `B` 5x3, `C` 3x3 with `hshift = 1` (group cell 1x2). -/
+def exRest : List (ChanInfo × Chan) :=
+  [({ w := 1, h := 1, hshift := 0, vshift := 0 }, { w := 1, h := 1, data := #[42] }),
+   ({ w := 5, h := 3, hshift := 0, vshift := 0 },
+    { w := 5, h := 3, data := #[1, 2, 3, 4, 5, 6, 7, 8, 9, 10, 11, 12, 13, 14, 15] }),
+   ({ w := 3, h := 3, hshift := 1, vshift := 0 },
+    { w := 3, h := 3, data := #[-1, -2, -3, -4, -5, -6, -7, -8, -9] })]
+example : groupLayoutOk 2 3 exRest = true := by decide +kernel
+/-- group 1 (column 1, row 0) has no piece of `A`; its sub-image is `[B-piece 2x2, C-piece 1x2]` -/
+example : (groupPieceChans 2 3 exRest 1).map (fun p => (p.2.w, p.2.h, p.2.data.toList))
+    = [(2, 2, [3, 4, 8, 9]), (1, 2, [-2, -5])] := by decide +kernel
+example : (groupPieceChans 2 3 exRest 5).map (fun p => (p.2.w, p.2.h, p.2.data.toList))
+    = [(1, 1, [15]), (1, 1, [-9])] := by decide +kernel
+example : chanObs (pasteGroups 2 3 (exRest.map (·.1))
+      (fun g => some ((groupPieceChans 2 3 exRest g).map (·.2))))
+    = chanObs (exRest.map (·.2)) := by decide +kernel
+example : 2 ^ 3 ∣ 128 * 2 ^ 1 ∧ 0 < 128 * 2 ^ 1 := by decide
+
+end Jxl.Enc
